@@ -204,7 +204,7 @@ func (c *monC17) End(m *Machine) *Violation {
 	return nil
 }
 
-var kindsC17 = append(append([]wk{}, worldKinds...), wk{"snip:register", 6}, wk{"snip:recover", 4}, wk{"confirm", 8}, wk{"recend", 6}, wk{"evend", 3}, wk{"snip:enrol-totp", 1}, wk{"reconfirm", 3}, wk{"snip:mangle", 12})
+var kindsC17 = append(append([]wk{}, worldKinds...), wk{"snip:register", 6}, wk{"snip:recover", 4}, wk{"confirm", 8}, wk{"recend", 6}, wk{"evend", 3}, wk{"snip:enrol-totp", 1}, wk{"reconfirm", 3}, wk{"snip:mangle", 12}, wk{"snip:evleak", 8})
 
 var profC17 = profile{
 	must: []string{"auth"}, may: []string{"confirm", "lock", "logout", "oauth2", "otp", "recover", "register", "remember"},
